@@ -39,12 +39,12 @@ class Ob:
 
 # a failed template obligation is a violation when the code is recognisably the idiom and deviates in a sub-term (>= NEAR of the
 # template's nodes match at the closest candidate); below that the construct is outside the recognised idioms: analysis-broken
-NEAR = float(os.environ.get("VERIF_NEAR", "0.75"))
+NEAR = float(os.environ.get("VERIF_NEAR", "1.01"))  # > 1: a template that does not match is never, by similarity alone, a violation (see DESIGN.md 7.11)
 
 
 import re as _re
 
-_NOTHING_FOUND = _re.compile(r"^\s*(|\[\]|\{\}|\(\)|None|set\(\)|\[\] \[\]|\[\] \{\}|\{\} \[\])\s*$|\bnot found\b|^0 blocks|\bcalls \[\]|\bdispatched \[\]|: \[\]$|^products \[\]")
+_NOTHING_FOUND = _re.compile(r"^\s*(|\[\]|\{\}|\(\)|None|set\(\)|\[\] \[\]|\[\] \{\}|\{\} \[\])\s*$|\bnot found\b|^0 [a-z]|\bcalls \[\]|\bdispatched \[\]|: \[\]$|^products \[\]")
 
 
 class Ctx:
